@@ -2570,8 +2570,7 @@ void Analyser::AnalyserImpl::analyseModel(const ModelPtr &model)
 {
     // Reset a few things in case this analyser was to be used to analyse more
     // than one model.
-
-    mModel = AnalyserModel::AnalyserModelImpl::create(model);
+    // Note: mModel has already been reset by Analyser::analyseModel().
 
     mInternalVariables.clear();
     mInternalEquations.clear();
@@ -3369,9 +3368,16 @@ AnalyserPtr Analyser::create() noexcept
 
 void Analyser::analyseModel(const ModelPtr &model)
 {
-    // Make sure that we have a model and that it is valid before analysing it.
+    // Start from a new analyser model, so that the result of a previous
+    // analysis (which the caller, or a generator, may still hold) is left
+    // untouched and so that model() never returns the result of an analysis
+    // of another model.
 
     pFunc()->removeAllIssues();
+
+    pFunc()->mModel = AnalyserModel::AnalyserModelImpl::create(model);
+
+    // Make sure that we have a model and that it is valid before analysing it.
 
     if (model == nullptr) {
         auto issue = Issue::IssueImpl::create();
